@@ -3,7 +3,8 @@ against a scripted executor, its handout log judged by the Lean oracle."""
 PID = "C03"
 SUBS = ["C03", "C03eval"]
 PARALLEL = {"C03eval": 8}
-RULE = ("random staged task graphs (chains, diamonds, multi-root, shuffle phases with task groups, shared dependencies) of "
+RULE = ("random staged task graphs (chains, diamonds, multi-root, shuffle phases with task groups, shared dependencies, the same "
+        "dependency listed twice as Cogroup(x, x) compiles to) of "
         "<=12 tasks; (a) op sequences set/enq/ret/retp/run with every task state as initial state, compared exactly after "
         "every op (todo, pending, Done, Err, return value); (b) exec.Eval with per-task outcome scripts (ok/lost/fatal), "
         "later loss of completed tasks, initial states from earlier evaluations, one and two concurrent evaluations; "
@@ -41,6 +42,9 @@ def gen_graph(r, maxn=12):
                         hs.append(sid[0])
                     else:
                         hs.append(sid[(t - ids[0]) % len(sid)])
+                if hs and r.chance(1, 6):
+                    # the same dependency twice, as Cogroup(x, x) or a self-join compiles to
+                    hs = hs + [hs[r.below(len(hs))]]
                 if hs and not r.chance(1, 10):
                     deps[t] = hs
         stages.append((ids, grouped))
@@ -88,6 +92,10 @@ def gen(r, tier, sub):
                 yield "N 3 D 1:0 2:1 ; script 0=%so%so 1=lo 2=o ; lose %d=0 ; roots 2" % ("l" * a, "l" * b, k)
         # directed: two concurrent evaluations share a slow task; one of them is abandoned (another of its tasks fails
         # fatally, or is lost five times) while the shared task still runs: the other must still see it complete
+        # directed: a task that lists one dependency twice (Cogroup(x, x)) next to an independent slow task: it must be handed
+        # out as soon as the dependency completes, not only when everything else has returned
+        yield "N 4 D 1:0,0 3:1,2 ; script 2=s ; roots 3"
+        yield "N 3 D 1:0,0 ; script 2=s ; roots 1,2"
         for bad in ("e", "lllll", "le"):
             yield "N 2 ; script 0=s 1=%s ; roots 0,1 | 0" % bad
             yield "N 3 D 2:0 ; script 0=s 1=%s ; roots 1,2 | 2" % bad
